@@ -99,6 +99,29 @@ fn inject(t: &Target, kind: u8, arg: u16) -> String {
                 }
             }
         }
+        Target::Unix(p) if kind % 6 == 1 => {
+            // a client whose own socket is bound to a pathname - every other time one that is not
+            // valid UTF-8 - before it connects, sends a complete request and goes away
+            use std::os::unix::ffi::OsStrExt;
+            let odd = arg % 2 == 0;
+            let mut name: Vec<u8> = format!("client-{arg}-").into_bytes();
+            if odd {
+                name.extend_from_slice(&[0xff, 0xfe]);
+            }
+            name.extend_from_slice(b".sock");
+            let cpath = p.parent().unwrap_or(std::path::Path::new("/tmp")).join(std::ffi::OsStr::from_bytes(&name));
+            let _ = std::fs::remove_file(&cpath);
+            let r = (|| -> std::io::Result<()> {
+                let sock = socket2::Socket::new(socket2::Domain::UNIX, socket2::Type::STREAM, None)?;
+                sock.bind(&socket2::SockAddr::unix(&cpath)?)?;
+                sock.connect(&socket2::SockAddr::unix(p)?)?;
+                let mut s: std::os::unix::net::UnixStream = sock.into();
+                s.write_all(b"GET /named HTTP/1.1\r\nhost: x\r\nconnection: close\r\n\r\n")?;
+                Ok(())
+            })();
+            let _ = std::fs::remove_file(&cpath);
+            format!("unix client bound to a {} pathname ({})", if odd { "non-UTF-8" } else { "plain" }, if r.is_ok() { "connected" } else { "failed" })
+        }
         Target::Unix(p) => {
             let Ok(mut s) = std::os::unix::net::UnixStream::connect(p) else { return "connect failed".into() };
             match kind % 6 {
